@@ -147,12 +147,12 @@ class _MolAtom:
         self.name, self.charge, self.radius = name, charge, radius
 
 
-def h_transfer(eng, ff):
+def h_transfer(eng, ff, collisions=True):
     """complex = amino residue + water + the ligand + another hetero group;
-    name collisions are symbolic"""
+    name collisions are symbolic (collisions=False: distinct names throughout - C01 reuses the harness that way)"""
     water_o = "O"
-    lig_names = ["L1", ["L2", "O"][eng.choice("ligand_has_atom_named_O", 2)]]
-    other_name = ["X1", "L1"][eng.choice("other_group_reuses_ligand_atom_name", 2)]
+    lig_names = ["L1", ["L2", "O"][eng.choice("ligand_has_atom_named_O", 2) if collisions else 0]]
+    other_name = ["X1", "L1"][eng.choice("other_group_reuses_ligand_atom_name", 2) if collisions else 0]
     w = flow.World(eng, "r", False, {}, [])
     split = eng.choice("ligand_spans_two_residues", 2)
     lig_res = [("LIG", [(nm, "HETATM", False) for nm in lig_names])] if not split else [("LIG", [(lig_names[0], "HETATM", False)]), ("LIG", [(lig_names[1], "HETATM", False)])]
